@@ -218,6 +218,10 @@ def main():
               {"name": "gcc-O1-nobuiltin-uchar", "cc": "gcc", "cflags": ("-O1", "-D__has_builtin(x)=0", "-funsigned-char")}]
     # clang selects other builtins than gcc in the runtime header
     builds.append({"name": "clang-O2", "cc": "clang", "cflags": ("-O2",)})
+    # compilers asked to trap on (or report) signed overflow and oversized shifts in the generated C: wasm arithmetic wraps, so the C must not
+    # rely on a signed operation wrapping
+    builds.append({"name": "gcc-O1-ftrapv", "cc": "gcc", "cflags": ("-O1", "-ftrapv")})
+    builds.append({"name": "clang-O1-ubsan-int", "cc": "clang", "cflags": ("-O1", "-fsanitize=signed-integer-overflow,shift", "-fno-sanitize-recover=all")})
     # the annotated (pretty) form of the output is other text for the same operations
     builds.append({"name": "gcc-O1-pretty", "cc": "gcc", "cflags": ("-O1",), "w2c2_opts": ("-m", "-p")})
     # for this very machine (whatever instruction-set extensions it has: lzcnt, bmi, popcnt, ... select other code paths)
